@@ -1204,6 +1204,54 @@ def check_state_beliefs(cx, iid="C03.T"):
                             inst.violation(b.path, "debug_assert(%s)" % norm_vars(bl)[:90], "the reviewed invariant's structural core no longer holds: " + why, at=b.span_at(loc))
 
 
+def check_divisions(cx, iid="C03.D"):
+    """T6: integer `/` and `%` panic on a zero divisor in every build profile.  Every division in the crate (rustc emits an
+    explicit DivisionByZero / RemainderByZero assertion for each one whose divisor is not a literal) divides by a non-zero
+    constant, or `divisor != 0` is established on every path to it."""
+    R = cx.R
+
+    def cval(e):
+        if e[0] == "cast":
+            return cval(e[2])
+        if e[0] == "const":
+            try:
+                return int(str(e[1]))
+            except ValueError:
+                try:
+                    return R.const_int(str(e[3] or e[1]))
+                except Exception:
+                    return None
+        if e[0] == "bin" and e[1] in ("Mul", "Add", "Sub", "Div", "Shl"):
+            a, b_ = cval(e[2]), cval(e[3])
+            if a is None or b_ is None or (e[1] == "Div" and b_ == 0):
+                return None
+            return {"Mul": a * b_, "Add": a + b_, "Sub": a - b_, "Div": a // b_ if b_ else 0, "Shl": a << b_ if 0 <= b_ < 64 else 0}[e[1]]
+        return None
+    with cx.instance(iid, "T6 division inventory", "every integer division / remainder divides by a non-zero constant or under an established `divisor != 0`", floor=20, exact_floor=False) as inst:
+        for b in R.all_bodies():
+            for bb in sorted(b.reachable):
+                t = b.term(bb)
+                if t["k"] != "assert" or str(t.get("msg")) not in ("DivisionByZero", "RemainderByZero"):
+                    continue
+                loc = Loc(bb, len(b.stmts(bb)))
+                ce = b.operand_expr(t["cond"])
+                d = None
+                if ce[0] == "bin" and ce[1] == "Eq":
+                    d = ce[3] if show(ce[2]) == "0" else ce[2] if show(ce[3]) == "0" else None
+                ds = show(d) if d is not None else show(ce)
+                v = cval(d) if d is not None else None
+                status = None
+                if v is not None and v != 0:
+                    status = "constant %d" % v
+                elif d is not None:
+                    good, _ = dnf_holds(cx.fa(b).at(loc), [[r"ne\(0,%s\)" % re.escape(ds)], [r"lt\(0,%s\)" % re.escape(ds)], [r"ne\(%s,0\)" % re.escape(ds)]])
+                    if good:
+                        status = "guarded: divisor != 0 on every path"
+                inst.site(b, loc, "%s by %s" % (t.get("msg"), norm_vars(ds)[:60]), {"status": status})
+                if not status:
+                    inst.violation(b.path, "division by " + norm_vars(ds)[:70], "integer division whose divisor `%s` is neither a non-zero constant nor tested non-zero on every path: a zero divisor panics in every build profile" % ds[:140], at=b.span_at(loc))
+
+
 # =================================================================================================
 # C03.V validity guards
 
@@ -1539,6 +1587,9 @@ def check_index_inventory(cx, iid="C03.X"):
                         status = "u8-into-256"
                     elif b.path.endswith("LossIntervalQueue::compute_loss_rate") or b.path.endswith("LossIntervalQueue::reset"):
                         status = _lk_weights(cx, inst, b, n)
+                        if status and not _weights_index_in_range(b, b.operand_expr(t["index"])):
+                            status = None
+                            why = "WEIGHTS index is not one of the reviewed forms (constant, or i + c for i in lo..len-k with c <= k - 1): it reaches len(entries) - 1 = 8"
                         why = "WEIGHTS index not bounded by the truncate() length"
                 elif m_arr and cf:
                     arr = m_arr.group(1)
@@ -1736,6 +1787,47 @@ def check_index_calls(cx, inst, reach):
                 inst.violation(b.path, construct, "indexing a collection (panics when out of range) with an index that is neither established below the length on every path nor a reviewed entry", at=b.span_at(loc))
 
 
+def _weights_index_in_range(b, idx_e):
+    """WEIGHTS has truncate_len - 1 entries and the queue at most truncate_len: an index i + c with i drawn from
+    lo .. entries.len() - k stays below len(WEIGHTS) iff c <= k - 1 (and lo + c >= 0); constants are checked by the caller's
+    length comparison"""
+    from rules import poly
+    from fractions import Fraction
+    if re.fullmatch(r"\d+", show(idx_e)):
+        return True
+    try:
+        pl = poly(idx_e)
+    except Exception:
+        return False
+    K, c = None, 0
+    for mono, co in pl.items():
+        if mono == ():
+            c = co
+            continue
+        mm = re.fullmatch(r"Range::next\(var(\d+)\)@Some\.0", mono[0]) if len(mono) == 1 else None
+        if not mm or co != 1 or K is not None:
+            return False
+        K = int(mm.group(1))
+    if K is None or Fraction(c).denominator != 1:
+        return False
+    rng = None
+    for l2, kind, node in b.defs.get(K, []):
+        ce = b.call_expr(node) if kind == "call" else b.rvalue_expr(node["rv"]) if kind == "assign" else None
+        if ce and ce[0] == "call" and ce[1].endswith("into_iter") and ce[2] and ce[2][0][0] == "agg" and ce[2][0][1] == "Range":
+            rng = (ce[2][0][2][0], ce[2][0][2][1])
+    if rng is None:
+        return False
+    try:
+        plo, phi = poly(rng[0]), poly(rng[1])
+    except Exception:
+        return False
+    L = [m for m in phi if m != ()]
+    if set(plo) - {()} or plo.get((), 0) + c < 0 or len(L) != 1 or L[0] != ("VecDeque::len(arg1.entries)",) or phi[L[0]] != 1:
+        return False
+    k = -phi.get((), 0)
+    return c <= k - 1
+
+
 def _lk_weights(cx, inst, b, n):
     """WEIGHTS[i] in compute_loss_rate: i < entries.len() - 1 <= truncate length - 1 <= len(WEIGHTS)"""
     R = cx.R
@@ -1822,6 +1914,7 @@ def run(cx):
     check_validators(cx)
     check_parser(cx)
     check_index_inventory(cx)
+    check_divisions(cx)
     # the loop and index arguments above rest on definitions elsewhere: `packet_id::is_valid(x)` as a loop-bound
     # guard is only as good as is_valid's own definition (x <= MASK), and the fragment-buffer indices are in range
     # only if the buffer is created for exactly last_fragment_id + 1 fragments, computed without overflow
